@@ -8,6 +8,7 @@ func (eng *Engine) lemmaObligation(lm *Lemma) (*Obligation, error) {
 	st := &State{pc: "true", mem: map[string]string{}}
 	g.entry = st
 	g.oldFrontier = g.frontier(st)
+	eng.emitGlobalAxioms(g)
 	env := &Env{g: g, sc: g.sc, eng: eng, st: st, old: st, vars: map[string]tv{}, pkg: eng.typesPkg(lm.Pkg)}
 	for _, p := range lm.Params {
 		ty, err := env.resolveType(p.Type)
